@@ -7,10 +7,16 @@
   are non-negative, never exceed the profile, unreachable utilities get nothing, and — on the
   either side — a ladder that ends with a utility lying wholly beyond the segment (what the default
   utilities are) closes the allocation within `tol` (`covering_ladder_closes_hot` / `_cold`).
-  The unconditional statement "the duties always sum to Qh / Qc" is false of the code (known
-  finding C03-cold-sufficiency-sign) and is not claimed as a theorem.
+  That such a utility EXISTS after the data preparation is `hot_cover_exists` (model of
+  `_find_extreme_process_temperatures` / `_complete_utility_data` / `_add_default_utilities`, tied to the
+  code by the `defaults` correspondence): some active hot utility's whole shifted band lies at or above
+  every cold stream's shifted target.  The mirror statement for the cold side is FALSE of the code —
+  `cold_cover_fails_witness`, kernel-decided: the sufficiency test subtracts the contribution of a cold
+  utility although a cold utility is shifted UP (known finding C03-cold-sufficiency-sign) — so the
+  unconditional statement "the duties always sum to Qh / Qc" is not claimed as a theorem.
 -/
 import OPModel.Proofs.UtilityClosure
+import OPModel.Proofs.DefaultsLemmas
 import OPModel.Gen.Constants
 
 namespace OP.C03
@@ -94,6 +100,42 @@ theorem covering_ladder_closes_cold (tol : Rat) (htol : 0 ≤ tol) (T H : List R
 /-- the hypotheses are met by the example ladder below (the 260-level covers the segment) -/
 example : (assignLoop Gen.tol [200, 150, 100] [900, 400, 0] true 900 0 ([⟨160, 1599/10⟩] ++ [⟨260, 2599/10⟩])).sum = 900 := by
   decide +kernel
+
+/-- **A covering hot utility always exists after the data preparation.**  For any cold streams, any
+    supplied utilities (isothermal, gliding, of any type, with or without target / contribution) and
+    any `DT_CONT`, `DT_PHASE_CHANGE ≥ 0`: the prepared list contains an active hot utility whose whole
+    SHIFTED band — `min(t_supply, t_target) − dt_cont` is its lower end — lies at or above the shifted
+    target of every cold stream.  (This is the hypothesis `hcov` of `covering_ladder_closes_hot`.) -/
+theorem hot_cover_exists (dtc dpc : Rat) (hdpc : 0 ≤ dpc) (hotT coldT : List Rat) (us : List (UIn × Bool)) :
+    ∃ u ∈ prepareUtilities dtc dpc hotT coldT us, u.hot = true ∧ u.active = true ∧
+      ∀ x ∈ coldT, x ≤ min u.ts u.tt - u.dt := by
+  unfold prepareUtilities
+  simp only
+  by_cases h : (us.map fun p => completeOne dtc dpc p.2 p.1).any (suppressesHU (huTmin coldT)) = true
+  · obtain ⟨u, hu, hs⟩ := List.any_eq_true.mp h
+    unfold suppressesHU at hs
+    simp only [Bool.and_eq_true, decide_eq_true_eq] at hs
+    refine ⟨u, ?_, hs.1.1, hs.1.2, fun x hx => le_trans (huTmin_ge coldT x hx) hs.2⟩
+    exact List.mem_append_left _ (List.mem_append_left _ hu)
+  · refine ⟨defaultUtility true (huTmin coldT) dtc dpc, ?_, rfl, rfl, ?_⟩
+    · rw [if_neg h]
+      exact List.mem_append_left _ (List.mem_append_right _ (by simp))
+    · intro x hx
+      have := huTmin_ge coldT x hx
+      simp only [defaultUtility, if_true, mul_one]
+      have e : min (huTmin coldT + (dtc + dpc)) (huTmin coldT + dtc) = huTmin coldT + dtc := by
+        apply min_eq_right; linarith
+      rw [e]; linarith
+
+/-- **The mirror statement fails on the cold side** (kernel-decided): cooling water at 32 °C with a
+    contribution of 10 K and one hot stream cooled to a shifted 35 °C — the preparation keeps the
+    cooling water (shifted band 42 … 42.1), adds NO default cold utility, and no cold utility of the
+    prepared list lies at or below the hot stream's shifted target. -/
+theorem cold_cover_fails_witness :
+    prepareUtilities 5 (1 / 10) [35] [] [(⟨false, true, true, 32, some 32, some 10⟩, false)]
+      = [⟨false, true, true, 32, 321 / 10, 10⟩, ⟨true, false, true, -1000000000 + (5 + 1 / 10), -1000000000 + 5, 5⟩] ∧
+    ¬ (32 : Rat) + 10 ≤ 35 := by
+  constructor <;> decide +kernel
 
 /-- The code's tolerance is non-negative. -/
 theorem tol_nonneg : 0 ≤ Gen.tol := by decide +kernel
